@@ -334,6 +334,15 @@ func keyReuseTour(res *core.Result, r *core.RNG) (*sim, error) {
 	s.res.Count("authorize.fresh-id-reuses-key")
 	s.w.Authorize(ea, "fresh-id-reuses-key")
 	s.w.SnapHop()
+	// the first device is then banned by a conflicting authorization: it must be gone like any banned
+	// device although its key lookup now points at the other id, and its reports must bounce
+	eb := d0.Auth
+	eb.Capacity += 7
+	eb.Signature = s.w.Sign(eb.SigningBytes(), s.a.GCA)
+	s.authorize(eb, "conflict-field")
+	s.deliverReport(s.a.report(s.w, d0, s.w.Now, 777, d0.K), "report")
+	s.w.Sync(d0.ID, true)
+	s.w.SnapHop()
 	// the server's own consistency check: run it here so that this specific history carries its own key
 	term := s.w.CoqCase()
 	s.res.Case(map[string]interface{}{"ops": s.w.Desc}, term, true)
